@@ -50,6 +50,17 @@ func vfRandSuite(r *verifkit.Rand, name string) *conformancev1.TestSuite {
 	for _, v := range pick(2) {
 		s.RelevantCodecs = append(s.RelevantCodecs, conformancev1.Codec(v))
 	}
+	if r.Chance(1, 8) {
+		// the deprecated text codec is still a value a suite file may list; no config case has it
+		switch r.Intn(3) {
+		case 0:
+			s.RelevantCodecs = []conformancev1.Codec{conformancev1.Codec_CODEC_TEXT}
+		case 1:
+			s.RelevantCodecs = append(s.RelevantCodecs, conformancev1.Codec_CODEC_TEXT)
+		default:
+			s.RelevantCodecs = append([]conformancev1.Codec{conformancev1.Codec_CODEC_TEXT}, s.RelevantCodecs...)
+		}
+	}
 	for _, v := range pick(6) {
 		s.RelevantCompressions = append(s.RelevantCompressions, conformancev1.Compression(v))
 	}
@@ -105,6 +116,9 @@ func vfRandSuite(r *verifkit.Rand, name string) *conformancev1.TestSuite {
 			switch st {
 			case 1:
 				m = &conformancev1.UnaryRequest{ResponseDefinition: &conformancev1.UnaryResponseDefinition{RawResponse: raw}}
+				if r.Bool() {
+					m = &conformancev1.IdempotentUnaryRequest{ResponseDefinition: &conformancev1.UnaryResponseDefinition{RawResponse: raw}}
+				}
 			case 2:
 				m = &conformancev1.ClientStreamRequest{ResponseDefinition: &conformancev1.UnaryResponseDefinition{RawResponse: raw}}
 			case 3:
@@ -406,6 +420,9 @@ func TestVerifC07Library(t *testing.T) {
 					switch tc.Request.StreamType {
 					case 1:
 						m = &conformancev1.UnaryRequest{ResponseDefinition: &conformancev1.UnaryResponseDefinition{RawResponse: raw}}
+						if ti%2 == 1 {
+							m = &conformancev1.IdempotentUnaryRequest{ResponseDefinition: &conformancev1.UnaryResponseDefinition{RawResponse: raw}}
+						}
 					case 2:
 						m = &conformancev1.ClientStreamRequest{ResponseDefinition: &conformancev1.UnaryResponseDefinition{RawResponse: raw}}
 					case 3:
@@ -526,14 +543,14 @@ func TestVerifC07Embedded(t *testing.T) {
 // server-mode suites and raw responses only in client-mode suites; the loader
 // enforces that whatever else the test case contains.
 func TestVerifC07ParseModeRules(t *testing.T) {
-	rep := verifkit.Begin("C07", "parse-mode-rules", "suite files through parseTestSuites: mode {unset, client, server} x raw payload {raw request, raw response in a unary / stream definition} x {with, without request messages; with extra ordinary cases before/after} x stream types; oracle: accepted exactly when a raw request sits in a server-mode suite / a raw response in a client-mode suite; ordinary cases are accepted in every mode; distinct = (mode, payload, shape)")
+	rep := verifkit.Begin("C07", "parse-mode-rules", "suite files through parseTestSuites: mode {unset, client, server} x raw payload {raw request, raw response in a unary / stream definition} x {with, without request messages; with extra ordinary cases before/after} x the five request message types (IdempotentUnaryRequest included) and stream types; oracle: accepted exactly when a raw request sits in a server-mode suite / a raw response in a client-mode suite; ordinary cases are accepted in every mode; distinct = (mode, payload, shape)")
 	defer rep.Write()
 	modes := []string{"", "TEST_MODE_CLIENT", "TEST_MODE_SERVER"}
-	stNames := []string{"STREAM_TYPE_UNARY", "STREAM_TYPE_CLIENT_STREAM", "STREAM_TYPE_SERVER_STREAM", "STREAM_TYPE_HALF_DUPLEX_BIDI_STREAM", "STREAM_TYPE_FULL_DUPLEX_BIDI_STREAM"}
-	msgTypes := []string{"UnaryRequest", "ClientStreamRequest", "ServerStreamRequest", "BidiStreamRequest", "BidiStreamRequest"}
+	stNames := []string{"STREAM_TYPE_UNARY", "STREAM_TYPE_CLIENT_STREAM", "STREAM_TYPE_SERVER_STREAM", "STREAM_TYPE_HALF_DUPLEX_BIDI_STREAM", "STREAM_TYPE_FULL_DUPLEX_BIDI_STREAM", "STREAM_TYPE_UNARY"}
+	msgTypes := []string{"UnaryRequest", "ClientStreamRequest", "ServerStreamRequest", "BidiStreamRequest", "BidiStreamRequest", "IdempotentUnaryRequest"}
 	for mi, mode := range modes {
 		for _, payload := range []string{"none", "raw-request", "raw-response"} {
-			for st := 0; st < 5; st++ {
+			for st := 0; st < len(msgTypes); st++ {
 				for _, withMsgs := range []bool{true, false} {
 					for _, neighbours := range []bool{false, true} {
 						if payload == "raw-response" && !withMsgs {
